@@ -2,11 +2,38 @@
 
 PROPERTIES = {
     "C11": dict(
-        modules=["rvltl", "temporal"],
+        modules=["rvltl", "temporal", "temporal_syntax"],
         level="proof",
-        claim="",
-        note="",
-        assumptions=[],
-        not_reached=[],
+        claim="temporal requirements: (a) the dependency's monitors (rv_ltl, source on disk, checked not trusted) refine the four-valued finite-trace "
+        "reference semantics sem4 (strong next / until) class by class over abstract children and traces of symbolic length -- truthiness exact, "
+        "FALSE / TRUE only when sem4 is FALSE / TRUE -- with sem4 itself validated against two-valued finite-trace LTL and all extensions on the bounded "
+        "trace space; (b) Scenic's proposition layer maps every operator to the rv_ltl node of the same operator with the operands in source order, "
+        "enumerates every atom once, evaluates every atomic closure exactly once per step in the current step and feeds the monitor one truth value per "
+        "atom; (c) the initial scene is rejected iff the step-0 verdict is FALSE, a running simulation iff some verdict of the step is FALSE, a finished "
+        "scenario iff some last verdict is falsy; (d) requirement syntax is compiled to the factory calls of the same operators with unique increasing atom ids",
+        note="per-class monitor contracts are for all trace lengths and all child values (UntilMonitor with two loop invariants over an uninterpreted running "
+        "minimum, used through definition/lemma instances; the lemmas are proved by induction in UntilMonitor._evaluate_at[lemma]); the sugar monitors, "
+        "Monitor.update, the end-to-end families and the Scenic-side tree contracts are bounded (stated per contract in `note`); "
+        "the obligations refuted on the installed rv_ltl / on Scenic are listed in the report of the contract author (F26 and new findings)",
+        assumptions=[
+            "enum.Enum machinery behind rv_ltl.B4 modelled (members = singletons identified by value); B4's own methods are interpreted from source",
+            "ast.NodeTransformer.visit / generic_visit modelled as class-name dispatch / child traversal (PropositionTransformer contract)",
+            "veneer.endScenario stubbed in DynamicScenario._stop (book-keeping of the running-scenario stack)",
+            "B4.from_bool is applied at call sites through its verified postcondition in closed form (value = 4 if b else 1)",
+        ],
+        bounded=[
+            "sugar monitors (Always/Eventually/Implies): traces of length <= 5, every position, operand values symbolic",
+            "end-to-end families on the real rv_ltl pipeline: 90 formulas of depth <= 2 over 2 atoms (+ `a until ((next next c) or d)`), all traces of length <= 4",
+            "sem4-vs-sat lemmas: 235 formulas, traces of length <= 4 with all extensions up to length 4",
+            "Scenic proposition layer end to end: 11 formulas (every operator), all traces of length <= 3",
+            "And/Or monitors and constructors: 0..3 operands; DynamicScenario._step/_stop: 3 / 2 requirement monitors",
+            "PropositionTransformer: 21 requirement sources parsed by the real parser",
+        ],
+        not_reached=[
+            "PendingRequirement.compile.closure / DynamicRequirement.__init__.closure (veneer.executeInRequirement / executeInScenario context managers around monitor.update())",
+            "DynamicScenario._addDynamicRequirement / _compileRequirements (which requirements become monitors of which scenario; sub-scenario nesting)",
+            "grammar-level precedence of the temporal operators (scenic.gram, C10; F31)",
+            "ScenicToPythonTransformer.createRequirementLike (wrapping of the transformed proposition into the veneer.require call)",
+        ],
     ),
 }
